@@ -28,10 +28,12 @@ pub fn line_changes_from_diff(
             // Deleted files are ignored.
             continue;
         }
-        result.insert(
-            patched_file.target_file.trim_start_matches("b/").into(),
-            line_changes(&patched_file),
-        );
+        // Strip the single "b/" prefix added by git (a directory may be named "b" as well).
+        let target_file = patched_file
+            .target_file
+            .strip_prefix("b/")
+            .unwrap_or(&patched_file.target_file);
+        result.insert(target_file.into(), line_changes(&patched_file));
     }
     Ok(result)
 }
